@@ -87,7 +87,7 @@ func sigOK(of *Offer, certType string, tls13 bool) bool {
 	case "ed25519":
 		return has16(of.SigAlgs, 0x0807)
 	case "ecdsa":
-		return has16(of.SigAlgs, 0x0403) // leaf is P-256
+		return has16(of.SigAlgs, 0x0403) || (!tls13 && len(of.SigAlgs) == 0) // leaf is P-256; no extension under TLS 1.2 = ECDSA with SHA-1
 	case "rsa":
 		if tls13 {
 			return has16(of.SigAlgs, 0x0804) || has16(of.SigAlgs, 0x0805) || has16(of.SigAlgs, 0x0806)
